@@ -21,7 +21,9 @@ CLAIM = {
             "value in all three; (R16.2) batches are all-or-nothing: the in-memory put_batch performs no insert on any "
             "path that can still fail and refuses stale/conflicting elements in its validation loop; the on-disk "
             "put_batch commits only when no mismatch was found, aborts otherwise, marks a mismatch for every stale or "
-            "conflicting element, and updates the version cache only after commit; (R16.3) the cloud-staged store "
+            "conflicting element, compares each element's version directly with the pre-batch version cache, and "
+            "updates the version cache only after commit; validation reads must not be reachable from a write of the "
+            "same structure inside the batch (the disk store's table read is: known finding); (R16.3) the cloud-staged store "
             "reads its own writes (get / get_version consult the commit log before the local store), prepare reports "
             "the commit log, commit applies exactly the log through local.put_batch and nothing else writes the local "
             "store inside a transaction; (R16.4) the on-disk store rebuilds its version cache from every table entry "
@@ -167,9 +169,69 @@ def r161(ctx):
            f"the three backends do not enforce the same version rules: {summaries}", where="vls-persist/src/kvv", sample=summaries)
 
 
+def _batch_compare_sources(ctx, b, store_field, owner):
+    """in a put_batch: every comparison of an element's version is against the version the store held *before the
+    batch*: the other operand is directly the result of `<map>.get(element key)` on the store's own map (field
+    `store_field` of `owner`), not a value staged earlier in the same batch or any other combination"""
+    fv = fnview(ctx, b, policy=False)
+    n = 0
+    for bi in sorted(fv.live_blocks()):
+        for s_ in b.stmts(bi):
+            if s_.kind != "a" or s_.rv.op != "bin" or s_.rv.a not in ("Lt", "Le", "Gt", "Ge", "Eq", "Ne"):
+                continue
+            l, r = fv.expr(s_.rv.ops[0]), fv.expr(s_.rv.ops[1])
+            for elem, other in ((l, r), (r, l)):
+                re_ = render(elem)
+                if "Iterator>::next(" not in re_ or not (re_.endswith(".1.0") or re_.endswith(".1).0") or "().0" in re_ or re_.endswith(".0")):
+                    continue
+                if "Iterator>::next(" in render(other) and "::get(" not in render(other):
+                    continue
+                if "::get(" not in render(other) and "version" not in render(other).lower():
+                    continue
+                n += 1
+                o = strip_ref(other)
+                while o[0] in ("payload", "let") or (o[0] == "field" and o[2] == "()"):
+                    o = strip_ref(o[1] if o[0] != "let" else o[2])
+                direct = o[0] == "call" and (o[1].endswith("BTreeMap::<K, V, A>::get") or o[1].endswith("::get")) and \
+                    any(x[0] == "field" and x[2].endswith(owner) and x[3] == store_field for x in subexprs(o[2][0]))
+                ctx.ob("R16.2", direct, f"{b.name}/compares-with-stored-version",
+                       f"`{b.name}` compares an element's version with `{render(other)[:160]}`: not directly the version the store "
+                       f"held before the batch (`self.{store_field}.get(key)`); the backends then disagree on batches that repeat a key",
+                       where=f"{b.file}:{s_.line}", sample=f"version vs self.{store_field}.get(key)")
+    return n
+
+
 def r162(ctx):
     ctx.rule("R16.2", "put_batch is all-or-nothing in the memory and disk stores")
     p = ctx.prog
+    nb = _batch_compare_sources(ctx, p.fn(f"{BACKENDS['redb']}::put_batch"), "versions", "redb::RedbKVVStore")
+    ctx.floor("R16.2", "version comparisons in the disk put_batch", nb, 2)
+    # validation reads see the store as it was before the batch: no read of a structure is reachable from a write of
+    # the same structure inside the batch (the memory store validates everything first, then writes)
+    nread = 0
+    for be in ("memory", "redb"):
+        bb = p.fn(f"{BACKENDS[be]}::put_batch")
+        bv = fnview(ctx, bb, policy=False)
+
+        def structure(c):
+            nm = c.callee.name if c.callee else ""
+            if "redb::Table" in nm:
+                return "table"
+            if "BTreeMap" in nm and c.args:
+                f_ = [x[3] for x in subexprs(bv.expr(c.args[0])) if x[0] == "field" and ("KVVStore" in x[2])]
+                return f_[0] if f_ else None
+            return None
+        reads = [(bi, c, structure(c)) for bi, c in bb.calls() if c.callee and c.callee.name.endswith("::get") and structure(c)]
+        writes = [(bi, c, structure(c)) for bi, c in bb.calls() if c.callee and c.callee.name.endswith("::insert") and structure(c)]
+        for rbi, rc, st in reads:
+            nread += 1
+            late = [wc.line for wbi, wc, st2 in writes if st2 == st and any(rbi in bv.reach(t) for t in bb.term(wbi).targets[:1])]
+            ctx.ob("R16.2", not late, f"{bb.name}/validation-reads-prebatch/{st}",
+                   f"`{bb.name}` reads `{st}` (line {rc.line}) to validate an element after an earlier element of the same batch may "
+                   f"already have been written to it (line {late[0] if late else 0}): the check then runs against staged data, while "
+                   f"the in-memory store validates against the pre-batch state - the backends disagree on batches that repeat a key",
+                   where=f"{bb.file}:{rc.line}", sample=f"{st}: read not reachable from a write in the batch")
+    ctx.floor("R16.2", "store reads in put_batch validation", nread, 2)
     # memory
     b = p.fn(f"{BACKENDS['memory']}::put_batch")
     fv = fnview(ctx, b, policy=False)
